@@ -164,6 +164,26 @@ class C08(E1Prop):
                 for o in seq:
                     o['dt'] = rng.choice([1, 5, 30])
                 self.script = seq
+            elif w.use_queue and rng.random() < 0.35:
+                # story: the event on an already queued PR whose queue builds
+                # are green (that job evaluates the PR, then hands over to
+                # the queue merge) gets the third-party placements
+                dests = ops.dest_branches(w.cfg)
+                seq = [{'op': 'open_pr', 'actor': 'alice',
+                        'src': 'bugfix/TEST-770', 'dst': rng.choice(dests),
+                        'kind': 'new'},
+                       {'op': 'eval', 'p': 0},
+                       {'op': 'ci_green_all', 'which': ['src', 'w']},
+                       {'op': 'eval', 'p': 0},
+                       {'op': 'ci_green_all', 'which': ['q']},
+                       {'op': 'probe', 'ev_pr': 0,
+                        'pick': rng.randrange(10 ** 9),
+                        'nmax': 10 if getattr(self, 'tier', 'quick') ==
+                        'quick' else 0}]
+                for o in seq:
+                    o['dt'] = rng.choice([1, 5, 30])
+                self.script = seq
+                self.nprobes += 1
         if getattr(self, 'script', None):
             return self.script.pop(0)
         op = self.gen.next(w)
@@ -231,6 +251,11 @@ class C08(E1Prop):
             a = op['api']
             ev = {'k': 'api', 'job': a['job'], 'kwargs': a.get('kwargs')
                   or {}, 'json': a.get('json') or {}}
+        elif 'ev_pr' in op:
+            if op['ev_pr'] >= len(w.user_prs):
+                w.step_digest(op, [])
+                return []
+            ev = {'k': 'pr', 'id': w.user_prs[op['ev_pr']], 'why': 'story'}
         else:
             if not w.events:
                 w.step_digest(op, [])
